@@ -224,6 +224,53 @@ theorem runCreate_ok {env : Env} {s s' : St} {o b : Addr} {n : Name} {u : String
     refine ⟨by omega, hex', hname'.2, hname'.1, hb, rfl, rfl, _, rfl, rfl, rfl, rfl, ?_⟩
     simp [hsub, hpb]
 
+theorem runCreate_offSale {env : Env} {s s' : St} {o b : Addr} {n : Name} {u : String} {uo : Bool} {p : Int} {c : Cur}
+    (h : runCreate env s o b n u uo p c = .ok s') :
+    ∃ d, s'.recs = upsert s.recs n d ∧ d.onSale = false ∧ d.salePrice = none := by
+  unfold runCreate at h
+  split at h
+  · cases h
+  rename_i hp
+  split at h
+  · cases h
+  rename_i hex
+  split at h
+  · cases h
+  rename_i b1 hb
+  split at h
+  · cases h
+  rename_i hname
+  split at h
+  · cases h
+  rename_i huri
+  simp only [] at h
+  have hex' : alookup n s.recs = none := by
+    cases hh : alookup n s.recs with
+    | none => rfl
+    | some v => simp [hh] at hex
+  have hname' : nameAllowed env.opts n = true ∧ validName n = true := by
+    simpa using hname
+  split at h
+  · rename_i hsub
+    split at h
+    · cases h
+    rename_i par hpar
+    split at h
+    · cases h
+    rename_i hown
+    split at h
+    · cases h
+    cases h
+    exact ⟨_, rfl, rfl, rfl⟩
+  · rename_i hsub
+    split at h
+    · cases h
+    split at h
+    · cases h
+    rename_i hpb
+    cases h
+    exact ⟨_, rfl, rfl, rfl⟩
+
 theorem runUpdate_ok {env : Env} {s s' : St} {o b : Addr} {n : Name} {a : Bool} {u : String} {uo : Bool}
     (h : runUpdate env s o b n a u uo = .ok s') :
     ∃ d, alookup n s.recs = some d ∧ d.owner = o ∧ changeable d env.height = true ∧
@@ -1083,5 +1130,87 @@ theorem nodup_run {s : St} (evs : List Ev) (hn : (akeys s.recs).Nodup) : (akeys 
     cases ev with
     | tx env t => exact ih (nodup_step hn)
     | commit => exact ih hn
+
+/-! ## sale status -/
+
+/-- owner and sale fields of an existing record move only through the owner's sell / cancel, or
+    through a purchase of that name, after which it is off sale, unpriced and owned by the buyer -/
+theorem sale_fields_of_change {env : Env} {s : St} {tx : Tx} {n : Name} {d d' : Domain}
+    (hd : alookup n s.recs = some d) (hd' : alookup n (step env s tx).2.recs = some d')
+    (hne : d'.onSale ≠ d.onSale ∨ d'.salePrice ≠ d.salePrice ∨ d'.owner ≠ d.owner) :
+    (∃ p cu c, tx = .sale d.owner n p cu c ∧ d'.owner = d.owner) ∨
+    (∃ b a o c, tx = .purchase b a n o c ∧ d'.owner = b ∧ d'.onSale = false ∧ d'.salePrice = none) := by
+  rcases step_cases env s tx with h | ⟨_, s1, h1, h2⟩
+  · rw [h, hd] at hd'; cases hd'; simp at hne
+  obtain ⟨_, _, _, _, hfr, _⟩ := feeStep_ok h2
+  rw [hfr] at hd'
+  have same : d' = d → False := fun e => by subst e; simp at hne
+  cases tx with
+  | create o b n' u uo p c =>
+    obtain ⟨_, habs, _, _, _, _, _, x, hrecs, _⟩ := runCreate_ok h1
+    rw [hrecs, alookup_upsert] at hd'
+    by_cases hk : n = n'
+    · subst hk; rw [habs] at hd; cases hd
+    · simp only [hk, if_false] at hd'; rw [hd] at hd'; cases hd'; exact (same rfl).elim
+  | update o b n' a u uo =>
+    obtain ⟨x, hx, _, _, _, _, _, hrecs⟩ := runUpdate_ok h1
+    rw [hrecs, alookup_upsert] at hd'
+    by_cases hk : n = n'
+    · subst hk; rw [hd] at hx; cases hx; simp only [if_true] at hd'; cases hd'; simp at hne
+    · simp only [hk, if_false] at hd'
+      split at hd'
+      · rw [alookup_mapSel, hd] at hd'
+        simp only [Option.map_some, Option.some.injEq] at hd'
+        subst hd'
+        split at hne <;> simp at hne
+      · rw [hd] at hd'; cases hd'; exact (same rfl).elim
+  | sale o n' p cu c =>
+    obtain ⟨x, hx, hown, _, _, _, _, _, _, x', hrecs, ho, _⟩ := runSale_ok h1
+    rw [hrecs, alookup_upsert] at hd'
+    by_cases hk : n = n'
+    · subst hk; rw [hd] at hx; cases hx; simp only [if_true] at hd'; cases hd'
+      left; exact ⟨p, cu, c, by rw [hown], ho⟩
+    · simp only [hk, if_false] at hd'; rw [hd] at hd'; cases hd'; exact (same rfl).elim
+  | purchase b a n' o c =>
+    obtain ⟨x, hx, _, _, _, _, hbr⟩ := runPurchase_ok h1
+    have hrecs : ∃ e, s1.recs = upsert (eraseSel (visSub s.tree n') s.recs) n' (resetAfterSale x b a e env.version) := by
+      rcases hbr with ⟨_, _, _, _, _, _, _, _, _, hr⟩ | ⟨_, _, _, _, hr⟩
+      · exact ⟨_, hr⟩
+      · exact ⟨_, hr⟩
+    obtain ⟨e, hrecs⟩ := hrecs
+    rw [hrecs, alookup_upsert] at hd'
+    by_cases hk : n = n'
+    · subst hk; simp only [if_true] at hd'; cases hd'
+      right; exact ⟨b, a, o, c, rfl, rfl, rfl, rfl⟩
+    · simp only [hk, if_false] at hd'
+      rw [alookup_eraseSel] at hd'
+      split at hd'
+      · cases hd'
+      · rw [hd] at hd'; cases hd'; exact (same rfl).elim
+  | send f n' amt c =>
+    obtain ⟨_, _, _, _, _, _, _, _, _, hrecs, _⟩ := runSend_ok h1
+    rw [hrecs, hd] at hd'; cases hd'; exact (same rfl).elim
+  | renew o n' p c =>
+    obtain ⟨x, hx, _, _, _, _, _, _, _, _, hrecs⟩ := runRenew_ok h1
+    rw [hrecs, alookup_mapSel, alookup_upsert] at hd'
+    by_cases hk : n = n'
+    · subst hk; rw [hd] at hx; cases hx
+      simp only [if_true, Option.map_some, Option.some.injEq] at hd'
+      subst hd'
+      split at hne <;> simp at hne
+    · simp only [hk, if_false, hd, Option.map_some, Option.some.injEq] at hd'
+      subst hd'
+      split at hne <;> simp at hne
+  | deleteSub o n' =>
+    obtain ⟨par, _, _, _, _, _, hrecs⟩ := runDeleteSub_ok h1
+    split at hrecs
+    · rw [hrecs.2, alookup_aerase] at hd'
+      split at hd'
+      · cases hd'
+      · rw [hd] at hd'; cases hd'; exact (same rfl).elim
+    · rw [hrecs, alookup_eraseSel] at hd'
+      split at hd'
+      · cases hd'
+      · rw [hd] at hd'; cases hd'; exact (same rfl).elim
 
 end OLP.Ons
